@@ -43,6 +43,7 @@ def main(argv=None) -> int:
     ap.add_argument("--replay")
     ap.add_argument("--repo", default=os.environ.get("VERIF_REPO", "/repo"))
     ap.add_argument("--no-selfcheck", action="store_true")
+    ap.add_argument("--list", action="store_true", help="print every obligation")
     ap.add_argument("--json", action="store_true", help="print obligations as JSON (used by the self-validation driver)")
     args = ap.parse_args(argv)
     seed = int(os.environ.get("VERIF_SEED", "0") or 0)
@@ -58,6 +59,9 @@ def main(argv=None) -> int:
             from dataclasses import asdict
             print(json.dumps([asdict(o) for o in rep.obligations], default=str))
             return 0
+        if args.list:
+            for o in rep.obligations:
+                print("%-11s %-8s %s @ %s: %s" % (o.status, o.rule, o.instance, o.where, o.detail))
         if args.replay:
             with open(args.replay) as fh:
                 r = json.load(fh)
